@@ -1316,7 +1316,10 @@ class World:
                     return src.A.copy(e.ref, dst.A)
                 if form == 1:
                     return src._ar.copy_bdd(e.ref, dst.A)
-                return _copy.copy_bdds_from(iter([e.ref]), dst.A)[0]
+                rs_ = _copy.copy_bdds_from(iter([e.ref]), dst.A)
+                require(len(rs_) == 1, 'xcopy.copy_bdds_from_length',
+                        dict(got=len(rs_)))
+                return rs_[0]
             u = src.node(e.ref)
             if form == 1:
                 return src._bddmod.copy_bdd(u, src.b, dst.b)
